@@ -22,7 +22,7 @@ RULE = ("schedule case = (actor scripts, strategy, decision list); non-trivial =
 CASES = {"quick": 600, "thorough": 12000}
 BUDGET_S = {"quick": 45, "thorough": 700}
 MIN_EVALS = {"quick": 150, "thorough": 2000}
-FLOORS = {"acquire_ok": 150, "contended": 30, "break_renames": 10, "steal_cases": 8}
+FLOORS = {"acquire_ok": 150, "contended": 30, "break_renames": 10, "steal_cases": 8, "policy_steals": 10}
 ASSUMPTIONS = ["actors are threads with separate object graphs; only one runs at a time and control changes only inside transport operations (the only points where real processes interleave)",
                "after a break of a live holder with matching info (the statement's exemption) the rest of that schedule is exempt from the mutual-exclusion oracle (the break oracle stays on)",
                "schedules are sampled, not enumerated"]
@@ -54,6 +54,9 @@ class Monitor:
         self.breaking = {}     # actor -> (examined nonce, disk nonce at call time)
         self.in_unlock = {}    # actor -> nonce   (between unlock-call and unlock-return: still a live holder on disk)
         self.events = []
+        self.sched_actors = set()
+        self.explicit_break = set()
+        self.dead_pid = None
         world.after = self.after_op
 
     def ev(self, *a):
@@ -119,6 +122,40 @@ def _n(x):
     return x.decode() if isinstance(x, bytes) else x
 
 
+_CUR = {"mon": None}
+
+
+def worker_init(tier):
+    """Rebind LockDir.force_break so that breaks issued by the steal-dead policy are observed too."""
+    from breezy.lockdir import LockDir
+
+    instr.install()
+    orig = LockDir.force_break
+    if getattr(orig, "_vf", False):
+        return
+
+    def force_break(self, dead_holder_info):
+        mon = _CUR["mon"]
+        actor = instr.current_actor()
+        if mon is not None and actor in mon.sched_actors:
+            explicit = actor in mon.explicit_break
+            if not explicit:
+                # a break decided by policy (steal from a dead holder) inside attempt_lock/wait_lock
+                mon.ctx.count("policy_steals")
+                pid = getattr(dead_holder_info, "pid", None)
+                if pid != mon.dead_pid:
+                    mon.ctx.fail("steal:policy-broke-holder-that-is-not-dead", "actor %s stole the lock of pid %r (nonce %s), which is not the dead holder" % (
+                        actor, pid, _n(dead_holder_info.nonce)), {"events": mon.events[-30:]})
+                mon.breaking[actor] = (_n(dead_holder_info.nonce), _disk_nonce(mon.root))
+                try:
+                    return orig(self, dead_holder_info)
+                finally:
+                    mon.breaking.pop(actor, None)
+        return orig(self, dead_holder_info)
+    force_break._vf = True
+    LockDir.force_break = force_break
+
+
 def _mk_lockdir(world, root):
     from breezy.lockdir import LockDir
     from dromedary import get_transport_from_url
@@ -150,6 +187,13 @@ def _actor_proc(ctx, mon, sched, world, root, script, name):
                 except errors.LockFailed as e:
                     ctx.hist("LockFailed")
                     mon.ev("acquire-failed", name, repr(e)[:80])
+                    continue
+                except (LockBreakMismatch, transport_errors.NoSuchFile) as e:
+                    # the steal-dead policy lost a race (the lock changed hands or vanished): acquisition failed
+                    ctx.hist("acquire-failed-in-steal:" + type(e).__name__)
+                    mon.ev("acquire-failed", name, type(e).__name__)
+                    if ld.is_held:
+                        ctx.fail("attempt:raised-but-believes-held", "attempt raised %s but is_held is True" % type(e).__name__)
                     continue
                 if not ld.is_held:
                     ctx.fail("attempt:returned-without-holding", "attempt_lock returned but is_held is False")
@@ -187,6 +231,7 @@ def _actor_proc(ctx, mon, sched, world, root, script, name):
                     sched.pause(name)
                 mon.breaking[name] = (_n(info.nonce), _disk_nonce(root))
                 mon.ev("break-call", name, _n(info.nonce))
+                mon.explicit_break.add(name)
                 try:
                     ld.force_break(info)
                     mon.ev("break-return", name, "done")
@@ -200,6 +245,7 @@ def _actor_proc(ctx, mon, sched, world, root, script, name):
                     ctx.count("break_vanished")
                 finally:
                     mon.breaking.pop(name, None)
+                    mon.explicit_break.discard(name)
             elif kind == "peek":
                 ld.peek()
     return run
@@ -230,11 +276,33 @@ def schedule_case(ctx):
     sched = instr.Scheduler(world, rng, strategy="random" if strategy == "targeted" else strategy, p=rng.choice([0.15, 0.3, 0.5]),
                             hot=hot, max_steps=STEP_BUDGET, d=3)
     mon = Monitor(ctx, root, world)
+    _CUR["mon"] = mon
     names = ["A", "B", "C"][:nact]
-    nbreakers = rng.choice([0, 1, 1, 2])
+    mon.sched_actors = set(names)
+    from breezy import config
+
+    steal_scenario = rng.random() < 0.3
+    config.GlobalStack().set("locks.steal_dead", steal_scenario)
+    if steal_scenario:
+        # a holder that died: forged info with our host and user and the pid of a reaped child
+        from breezy.lockdir import LockDir
+        from dromedary import get_transport_from_path
+
+        dead = LockDir(get_transport_from_path(root), "lock")
+        dead.attempt_lock()
+        ip = os.path.join(root, "lock", "held", "info")
+        data = open(ip).read()
+        mon.dead_pid = _get_dead_pid()
+        with open(ip, "w") as f:
+            f.write("\n".join(("pid: %d" % mon.dead_pid) if l.startswith("pid:") else l for l in data.splitlines()) + "\n")
+        ctx.count("steal_schedules")
+    nbreakers = rng.choice([0, 1, 1, 2]) if not steal_scenario else 0
     scripts = {n: _gen_script(rng, breaker=(i >= nact - nbreakers)) for i, n in enumerate(names)}
     procs = {n: _actor_proc(ctx, mon, sched, world, root, scripts[n], n) for n in names}
-    done = sched.run(procs, timeout=120)
+    try:
+        done = sched.run(procs, timeout=120)
+    finally:
+        _CUR["mon"] = None
     if not done:
         ctx.hist("schedule-budget-exhausted" if not getattr(sched, "stuck", None) else "schedule-stuck")
         ctx.discard("schedule did not finish (inconclusive for this schedule)")
@@ -329,7 +397,6 @@ def steal_case(ctx):
 
 
 def case(ctx):
-    instr.install()
     if ctx.index % 10 == 9:
         steal_case(ctx)
     else:
